@@ -87,6 +87,14 @@ func (m *Module) WriteTo(w io.Writer) (n int64, err error) {
 	if err := m.AssignMetadataIDs(); err != nil {
 		panic(fmt.Errorf("unable to assign metadata IDs of module; %v", err))
 	}
+	// Assign local IDs of function definitions up front; the ID of a basic
+	// block may be printed before the function itself (e.g. by a blockaddress
+	// constant in the initializer of a global variable).
+	for _, f := range m.Funcs {
+		if err := f.AssignIDs(); err != nil {
+			panic(fmt.Errorf("unable to assign IDs of function %q; %v", f.Ident(), err))
+		}
+	}
 	// Source filename.
 	if len(m.SourceFilename) > 0 {
 		// 'source_filename' '=' Name=StringLit
